@@ -19,7 +19,9 @@ func init() {
 
 // RunModel feeds the lines to the Lean driver and returns one response per line.
 func RunModel(lines []string) ([]string, error) {
-	cmd := exec.Command(DriverPath)
+	// (an address-space limit: should the Model ever explode on an input, the driver fails on its own
+	// instead of taking the machine's memory)
+	cmd := exec.Command("/bin/sh", "-c", `ulimit -v 16777216; exec "$0"`, DriverPath)
 	cmd.Stdin = strings.NewReader(strings.Join(lines, "\n") + "\n")
 	var out, errb bytes.Buffer
 	cmd.Stdout = &out
